@@ -64,14 +64,17 @@ func (fr *frame) evalClause(cl *Clause, blk *ssa.BasicBlock, st *State, extra ma
 	ce := &cenv{ex: ex, pkg: pkg, fr: fr, blk: blk, vars: vars, st: st, old: fr.entry, nq: &n}
 	ex.pure++
 	defer func() { ex.pure-- }()
-	v := ce.eval(cl.Expr)
-	if len(v.L) != 1 {
-		panic(unsupported("clause is not boolean: " + cl.Text))
-	}
+	res := ex.pureScope(func() string {
+		v := ce.eval(cl.Expr)
+		if len(v.L) != 1 {
+			panic(unsupported("clause is not boolean: " + cl.Text))
+		}
+		return v.L[0]
+	})
 	if os.Getenv("GOVC_DEBUG") != "" {
-		fmt.Fprintf(os.Stderr, "clause %s: %d bytes\n", cl.Label, len(v.L[0]))
+		fmt.Fprintf(os.Stderr, "clause %s: %d bytes\n", cl.Label, len(res))
 	}
-	return v.L[0]
+	return res
 }
 
 // evalCallClause evaluates a callee's clause at a call site.
@@ -80,11 +83,13 @@ func (ex *Exec) evalCallClause(c *Contract, cl *Clause, vars map[string]Val, st,
 	ce := &cenv{ex: ex, pkg: c.Pkg, vars: vars, st: st, old: old, nq: &n}
 	ex.pure++
 	defer func() { ex.pure-- }()
-	v := ce.eval(cl.Expr)
-	if len(v.L) != 1 {
-		panic(unsupported("clause is not boolean: " + cl.Text))
-	}
-	return v.L[0]
+	return ex.pureScope(func() string {
+		v := ce.eval(cl.Expr)
+		if len(v.L) != 1 {
+			panic(unsupported("clause is not boolean: " + cl.Text))
+		}
+		return v.L[0]
+	})
 }
 
 func (ce *cenv) lookupIdent(id *ast.Ident) (Val, bool) {
@@ -199,7 +204,7 @@ func (fr *frame) lookupLocal(name string, blk *ssa.BasicBlock, st *State) (Val, 
 					}
 				}
 				if phi.Comment == "rangeindex" {
-					if kn := fr.ex.w.rangeKeyName(fr.fn, h); kn == name {
+					if kn := fr.ex.w.rangeKeyName(fr.fn, h); kn == name || name == "range_i" {
 						if v, ok := fr.vals[phi]; ok {
 							return scalar(types.Typ[types.Int], app("+", v.L[0], "1")), true
 						}
@@ -769,7 +774,7 @@ func (ce *cenv) pseudo(name string, x *ast.CallExpr) (Val, bool) {
 		hi := arg(2).L[0]
 		rec := &qRecord{seen: map[string]bool{}}
 		ex.qrec[bv] = rec
-		body := ce.with(id.Name, intVal(bv)).eval(x.Args[3]).L[0]
+		body := ex.pureScope(func() string { return ce.with(id.Name, intVal(bv)).eval(x.Args[3]).L[0] })
 		delete(ex.qrec, bv)
 		rng := and(app("<=", lo, bv), app("<", bv, hi))
 		return boolVal(orientQuant(name, bv, rng, body, rec)), true
@@ -798,6 +803,9 @@ func (ce *cenv) pseudo(name string, x *ast.CallExpr) (Val, bool) {
 	case "allocated": // allocated(p): reference existed at function entry
 		v := arg(0)
 		return boolVal(and(app("<=", "0", v.L[0]), app("<=", v.L[0], ce.old.Top))), true
+	case "suffixOf": // suffixOf(a, b): slice a is b[k:] for some k (same array, same end)
+		a, b := arg(0), arg(1)
+		return boolVal(and(eq(a.L[0], b.L[0]), eq(app("+", a.L[1], a.L[2]), app("+", b.L[1], b.L[2])), app("<=", a.L[2], b.L[2]), app("<=", b.L[1], a.L[1]))), true
 	case "live": // live(p): reference is allocated in the current state
 		v := arg(0)
 		return boolVal(and(app("<=", "0", v.L[0]), app("<=", v.L[0], ce.st.Top))), true
@@ -815,6 +823,13 @@ func (ce *cenv) pseudo(name string, x *ast.CallExpr) (Val, bool) {
 			ce.fail(x, "unknown type in chain()")
 		}
 		return boolVal(ex.chainTerm(v, ex.w.typeID(t))), true
+	case "noRepoErr": // the error's chain contains none of the module's error types
+		v := arg(0)
+		var cs []string
+		for _, t := range ex.w.errTypes {
+			cs = append(cs, not(ex.chainTerm(v, ex.w.typeID(t))))
+		}
+		return boolVal(and(cs...)), true
 	case "isDeadline": // errors.Is(err, os.ErrDeadlineExceeded)
 		return boolVal(ex.chainTerm(arg(0), chainDeadline)), true
 	case "wraps": // wraps(err, cause): cause is in the chain of err
@@ -836,14 +851,14 @@ func (ce *cenv) pseudo(name string, x *ast.CallExpr) (Val, bool) {
 		s := arg(0)
 		i := arg(1).L[0]
 		b0 := ex.sliceLoad(ce.st, s, i).L[0]
-		b1 := ex.sliceLoad(ce.st, s, app("+", i, "1")).L[0]
+		b1 := ex.sliceLoad(ce.st, s, addc(i, 1)).L[0]
 		return scalar(types.Typ[types.Uint16], app("+", app("*", "256", b0), b1)), true
 	case "be32":
 		s := arg(0)
 		i := arg(1).L[0]
 		t := "0"
 		for k := 0; k < 4; k++ {
-			t = app("+", app("*", "256", t), ex.sliceLoad(ce.st, s, app("+", i, num(int64(k)))).L[0])
+			t = app("+", app("*", "256", t), ex.sliceLoad(ce.st, s, addc(i, int64(k))).L[0])
 		}
 		return scalar(types.Typ[types.Uint32], t), true
 	case "held": // held(mu)
@@ -954,6 +969,9 @@ func replaceToken(s, tok, repl string) string {
 
 // findSelectPattern finds a term "(select (select H arr) k)" in body to use as the quantifier pattern.
 func findSelectPattern(body, arr, k string) string {
+	if strings.Contains(arr, "l!") {
+		return "" // let-bound names are not in scope of a pattern
+	}
 	suffix := " " + arr + ") " + k + ")"
 	j := strings.Index(body, suffix)
 	if j < 0 {
@@ -970,7 +988,7 @@ func findSelectPattern(body, arr, k string) string {
 			d--
 			if d == 0 {
 				t := body[i:end]
-				if strings.HasPrefix(t, "(select (select ") {
+				if strings.HasPrefix(t, "(select (select ") && !strings.Contains(t, "l!") {
 					return t
 				}
 				return ""
